@@ -597,7 +597,13 @@ pub fn gen_fan(rng: &mut Rng, p: usize) -> Facts {
 /// Few diamonds, so that the exponential upward path enumeration of the crate stays cheap.
 pub fn gen_trunk(rng: &mut Rng) -> Facts {
     let len = rng.range(31, 45) as usize;
-    let ids = gen_ids(rng, len + 22, &[1, 118]);
+    let mut ids = gen_ids(rng, len + 25, &[1, 118]);
+    // a side branch 118 <- ids[len+22] <- ids[len+23] whose lower term gets an id BELOW the id of
+    // the trunk's end: the term ids[len+24] has both as parents, the one with the smaller id having
+    // few ancestors of its own, the one with the larger id more than thirty
+    if ids[len + 23] > ids[len - 1] {
+        ids.swap(len + 23, len - 1);
+    }
     let mut f = Facts::default();
     f.terms.push((1, "All".to_string()));
     f.terms.push((118, "Phenotypic abnormality".to_string()));
@@ -643,6 +649,10 @@ pub fn gen_trunk(rng: &mut Rng) -> Facts {
             f.edges.push((trunk[at], *p));
         }
     }
+    f.edges.push((118, ids[len + 22]));
+    f.edges.push((ids[len + 22], ids[len + 23]));
+    f.edges.push((ids[len + 23], ids[len + 24]));
+    f.edges.push((trunk[len - 1], ids[len + 24]));
     f.edges.sort_unstable();
     f.edges.dedup();
     for k in 0..3 {
